@@ -18,10 +18,17 @@ namespace OpenMEEG {
                 try {
                     is.read(buffer,maxtagsize);
 
-                    for(int i=maxtagsize-1;i>=0;--i)
+                    //  A file shorter than the tag leaves eof/fail set: only put back what was read,
+                    //  and hand a usable stream to the format reader.
+
+                    const int n = static_cast<int>(is.gcount());
+                    if (n<static_cast<int>(maxtagsize))
+                        is.clear();
+
+                    for(int i=n-1;i>=0;--i)
                         is.putback(buffer[i]);
 
-                    buffer[maxtagsize] = '\0'; // Add an end of string.
+                    buffer[n] = '\0'; // Add an end of string.
 
                 } catch(...) {
                     throw BadHeader();
